@@ -7,6 +7,7 @@
   Spec:   `Fc.Spec.fuzzySpec`, `Fc.Spec.docFormula`, `Fc.Spec.exactFormula`
 -/
 import FcProofs.Lemmas.Fuzzy
+import FcProofs.Lemmas.SourceFormula
 namespace Fc
 open Spec
 
@@ -177,5 +178,27 @@ theorem C01_boundary (a b : Int) (rel abs : Nat) (habs : rndMag f64 abs 0 = some
     (h : (b - a).natAbs * 2 ^ UNIT = max (max a.natAbs b.natAbs * rel) (abs * 2 ^ UNIT)) :
     docFormula f64 a b rel abs = true :=
   C01_exact_implies_float a b rel abs habs (by unfold exactFormula; simp [h])
+
+/-- **C01 (tie to the source text).**  The body of `_numpy_utils.fuzzy_equal` as *translated from
+    the current source text on this run* (`Fc.Gen.fuzzyEqualBody`, FcGen/Tables.lean), evaluated
+    with binary64 lane semantics on any finite operands and tolerances, is the documented formula —
+    hence (by `fuzzyEq1_f64`) the model's scalar kernel.  A source change of the formula breaks
+    this obligation. -/
+theorem C01_source_formula (a b : Int) (rel abs : Nat) :
+    evalBody [("first", .num (.fin a)), ("second", .num (.fin b)),
+              ("rel_tol", .num (.fin rel)), ("abs_tol", .num (.fin abs))] Gen.fuzzyEqualBody
+      = some (.bool (docFormula f64 a b rel abs)) := by
+  simp [Gen.fuzzyEqualBody, evalBody, NExpr.eval, Env.get, List.find?, evalNum, evalNum2, evalCmp]
+  rw [xvAbs_sub, xvMax_abs, xvMul_nonneg]
+  unfold docFormula
+  cases rndMag f64 (b - a).natAbs 0 <;> cases rndMag f64 (max a.natAbs b.natAbs * rel) UNIT <;>
+    simp [xvMax, xvLe, leInf, maxInf]
+  · rename_i p
+    by_cases h : p ≤ abs <;> simp [h]
+  · rename_i d p
+    by_cases h : p ≤ abs
+    · simp [h, Nat.max_eq_right h]
+    · have h' : abs ≤ p := by omega
+      simp [h, Nat.max_eq_left h']
 
 end Fc
